@@ -112,6 +112,8 @@ type Event struct {
 
 // World is the state of one generated history.
 type World struct {
+	ExtClockAhead time.Duration // see ExternalRotate
+
 	T       *rapid.T
 	Opt     Options
 	Service string
@@ -742,7 +744,8 @@ func (w *World) RevokeRow(id string, created int64, isSK bool) bool {
 func (w *World) ExternalRotate(part string, newSK bool) bool {
 	ev := w.begin("rotate", nil, nil, part)
 	defer w.end(ev)
-	now := verifhook.Now().Unix()
+	// ExtClockAhead: the other process's host clock runs ahead of ours
+	now := verifhook.Now().Add(w.ExtClockAhead).Unix()
 	skID, ikID := w.SKID(), w.IKID(part)
 	var sk []byte
 	var skCreated int64
@@ -752,7 +755,7 @@ func (w *World) ExternalRotate(part string, newSK bool) bool {
 		// creates an IK under an SK that is expired or revoked
 		pol := w.Procs[0].Policy
 		if pol.CreateDatePrecision > 0 {
-			now = verifhook.Now().Truncate(pol.CreateDatePrecision).Unix()
+			now = verifhook.Now().Add(w.ExtClockAhead).Truncate(pol.CreateDatePrecision).Unix()
 		}
 		if latestSK != nil && (latestSK.Rec.Revoked || verifhook.Now().After(time.Unix(latestSK.Created, 0).Add(pol.ExpireKeyAfter))) {
 			newSK = true
